@@ -3,6 +3,7 @@ package sym
 
 import (
 	"fmt"
+	"os"
 	"math/big"
 	"sort"
 	"strings"
@@ -459,6 +460,15 @@ func (c *Ctx) BVOp(op Op, a, b *Term) *Term {
 		}
 	}
 	w := a.S.W
+	if b.Op == OIte && a.IsConst() && (op == OAdd || op == OMul || op == OAnd || op == OOr || op == OXor) {
+		a, b = b, a
+	}
+	if a.Op == OIte && b.IsConst() && op != OConcat {
+		// op(ite-tree of constants, constant): evaluate at the leaves
+		if r := c.LiftIte(a, func(leaf *Term) *Term { return c.BVOp(op, leaf, b) }); r != nil {
+			return r
+		}
+	}
 	switch op {
 	case OAdd:
 		if a.isZero() {
@@ -1353,4 +1363,49 @@ func (t *Term) str(d int) string {
 	}
 	sb.WriteString(")")
 	return sb.String()
+}
+
+var debugLift = os.Getenv("SYMGO_DEBUG") == "3"
+
+// LiftIte applies f to the constant leaves of an if-then-else tree (f(ite(c,a,b)) = ite(c,f(a),f(b)));
+// returns nil if t is not such a tree (or is too large).
+func (c *Ctx) LiftIte(t *Term, f func(leaf *Term) *Term) *Term {
+	memo := map[int]*Term{}
+	count := 0
+	var rec func(x *Term) *Term
+	rec = func(x *Term) *Term {
+		if r, ok := memo[x.ID]; ok {
+			return r
+		}
+		var r *Term
+		switch {
+		case x.IsConst():
+			r = f(x)
+		case x.Op == OIte:
+			count++
+			if count > 2000 {
+				return nil
+			}
+			a := rec(x.Args[1])
+			if a == nil {
+				return nil
+			}
+			b := rec(x.Args[2])
+			if b == nil {
+				return nil
+			}
+			r = c.Ite(x.Args[0], a, b)
+		default:
+			if debugLift {
+				println("LiftIte: non-constant leaf", x.String())
+			}
+			return nil
+		}
+		memo[x.ID] = r
+		return r
+	}
+	if t.Op != OIte {
+		return nil
+	}
+	return rec(t)
 }
